@@ -54,6 +54,10 @@ pub(crate) fn c10_oracle(c: &Bytes, st: &mut Stats) -> Verdict {
         Framing::Well { .. } => {}
         Framing::PaddingZone => {
             st.label("either-unchecked: padding count larger than the body");
+            // nothing is demanded here beyond "no crash": the parser and, if it accepts, the accessors still run
+            if let Ok(p) = no_panic("Sdes::parse", || Sdes::parse(b)).map_err(|f| Failure::new(format!("C10:{}", f.signature), format!("{}; input {}", f.detail, hex(b))))? {
+                let _ = crate_tokens(&p)?;
+            }
             return Ok(());
         }
         Framing::Bad(_) => {
